@@ -47,6 +47,20 @@ func main() {
 		checks.Only = *only
 		checks.TimeoutOverride = *tmo
 		os.Exit(checks.Run(id, *tier, seed, *repo, *verif, *verbose))
+	case "exec": // debug: vp exec <pkgdir> <Func> [param=value ...]
+		params := map[string]int64{}
+		for _, kv := range os.Args[4:] {
+			var k string
+			var v int64
+			for i := range kv {
+				if kv[i] == '=' {
+					k = kv[:i]
+					v, _ = strconv.ParseInt(kv[i+1:], 10, 64)
+				}
+			}
+			params[k] = v
+		}
+		os.Exit(checks.ExecOne(os.Args[2], os.Args[3], params, "/repo", "/verif"))
 	case "replay":
 		if len(os.Args) < 3 {
 			fmt.Println("usage: vp replay <tape.json>")
